@@ -116,4 +116,26 @@ def FExpr.rad (xc xr : Rat) : FExpr → Rat
   | .sub a b => a.rad xc xr + b.rad xc xr
   | .mul a b => qabs (a.mid xc) * b.rad xc xr + qabs (b.mid xc) * a.rad xc xr + a.rad xc xr * b.rad xc xr
 
+/-- Bound on `|t| = |(jde0 - 2451545)/36525|` for queries in -2000..4000 (proved in `Refine/Finders.lean`:
+    year -2000 is t = -40.0, year 4000 is t = +20.0, plus half a period). -/
+def tMax : Rat := 41
+
+/-- Centre of the values of `corr` for `|t| ≤ tMax`: the constant term of the series. -/
+def Finder.corrMid (r : Finder) : Rat := r.corr.mid 0
+/-- Radius of the values of `corr` around `corrMid` for `|t| ≤ tMax` and arbitrary angles:
+    the sum of the absolute values of the amplitude polynomials on that range. -/
+def Finder.corrRad (r : Finder) : Rat := r.corr.rad 0 tMax
+
+/-- Bound on `|k|` used for the first approximation of perihelion_aphelion (years -4000..+8000 for every planet). -/
+def PAFinder.kMax (r : PAFinder) : Rat := qabs r.C.toRat * 6100
+
+/-- Bound on Earth's periodic correction (0 for the other planets). -/
+def PAFinder.corrRad (r : PAFinder) : Rat :=
+  let f : Option FExpr → Rat := fun o => match o with
+    | none => 0
+    | some e => qabs (e.mid 0) + e.rad 0 r.kMax
+  let a := f r.corrPeri
+  let b := f r.corrAph
+  if a < b then b else a
+
 end Pymeeus.Finders
